@@ -9,9 +9,11 @@ import re
 import subprocess
 
 PROOF = "proof"
-TECH = "Coq theorems about a Gallina model + differential correspondence (vm_compute) tying the model to /repo"
+TECH = ("Coq theorems about a Gallina model; the model is tied to /repo on every run by a differential correspondence "
+        "(model evaluated with vm_compute on the cases the implementation ran) and, for the translated functions, by "
+        "Gallina definitions regenerated from the Python source text and proved equal to the model (tie C)")
 T = {
- "C01": ("`C01_set_algebra`: for every expression tree in the decidable domain `good` (any stored events — overlapping, nested, adjacent, duplicated, unbounded — under | & - ~ flatten and leaf filters; operands of & and sources of - internally non-overlapping) and every window, covers(slice) = window AND pointwise Boolean denotation; per-sweep theorems for union (any streams), complement (any sorted stream), difference (arbitrary subtractors), k-way intersection, window clipping. Model tied to /repo by running both on generated expression trees; the Coq oracle `cover_ok` is applied to the implementation's output on all breakpoints.",
+ "C01": ("`C01_set_algebra`: for every expression tree in the decidable domain `good` (any stored events — overlapping, nested, adjacent, duplicated, unbounded — under | & - ~ flatten and leaf filters; operands of & and sources of - internally non-overlapping) and every window, covers(slice) = window AND pointwise Boolean denotation; per-sweep theorems for union (any streams), complement (any sorted stream), difference (arbitrary subtractors), k-way intersection, window clipping. Model tied to /repo by running both on generated expression trees (aliased leaves included); the Coq oracle `cover_ok` is applied to the implementation's output on all breakpoints; Complement._sweep / Complement.fetch / _SolidTimeline.fetch / finite_start / finite_end are re-translated from the source text on every run and proved equal to the model (`C01_source_*`).",
          "5/C01", "Coq kernel; hand-written model + correspondence; difference over a source stream with overlapping events is known finding KF-D1 (the theorem's domain excludes it, `C01_difference_overlap_refuted` keeps the witness); coverage of intersections over internally overlapping operands rests on correspondence + oracle"),
  "C02": ("`C02_events_exact`: on `good` trees the slice is, as a multiset, the clip of the window-independent reference evaluation `ref` (each source event once per surviving part, payload intact); sweep-level exactness for union, filter, difference (list equality with `minus_runs`), k-way intersection (permutation of `inter_ref`), never-invents theorems without any domain restriction. Oracle on the implementation: multiset equality with `expected` on the exact domain, per-event survival (`events_weak_ok`) everywhere.",
          "5/C02", "as C01; KF-D1 and KF-D2 (intersection keeps one current event per operand) are known findings with refuted-theorem witnesses"),
@@ -21,15 +23,15 @@ T = {
          "5/C04", "as C01; nested events under a negated sweep are known finding KF-D3; k-way intersection reverse rests on correspondence + oracle; recurring sources and the Google adapter are covered by C08/C20"),
  "C05": ("`C05_locality`: on `good` trees a nested window returns exactly the clip of the wider result; `expected_local`; nested-window pairs and cache paging histories of the implementation judged by the Coq oracle.",
          "5/C05", "as C02; recurring sources are covered by C08 (`fetch_window_independent`)"),
- "C06": ("`csweep_spec`: the complement sweep returns plain, window-confined, sentinel-free, strictly separated gaps covering exactly the uncovered instants, for EVERY sorted positive-length input; `canonical_unique`, `flatten_idempotent`, `compl_triple` (Proofs/Canon.v); correspondence + Coq oracle `canonical` on nestings of ~, flatten, & over masks.",
+ "C06": ("`csweep_spec`: the complement sweep returns plain, window-confined, sentinel-free, strictly separated gaps covering exactly the uncovered instants, for EVERY sorted positive-length input; `canonical_unique`, `flatten_idempotent`, `compl_triple` (Proofs/Canon.v); `C06_source_complement_canonical_and_exact`: the same theorem about the Gallina translation of Complement._sweep's SOURCE TEXT regenerated on every run (tie C); correspondence + Coq oracle `canonical` on nestings of ~, flatten, & over masks incl. non-canonical unions of masks under them.",
          "5/C06", "Coq kernel + model + correspondence; no known finding"),
- "C07": ("Gallina model of RecurringPattern (rrule expansion for the supported parts, safe anchor, look-back, DST-aware occurrence conversion) checked against dateutil/zoneinfo and against RecurringPattern on every run; the oracle is an independent per-local-date series (`Spec/RecurSpec.v`); calendar lemmas (one full 400-year era enumerated in the kernel + periodicity) and anchor theorems in Proofs/CivilP.v, RecurP.v.",
+ "C07": ("`C07_forward_exact`: whenever the forward fetch of the model returns, it returns EXACTLY the occurrences of the bi-infinite phase-aligned series (`Spec/RecurSpec.v`: one occurrence per matching local date) that end after the window start and start at or before its end, minus exdates, ascending — every frequency, interval, BYDAY (plain or n-th), BYMONTHDAY, BYMONTH, BYSETPOS, anchored or time-of-day, any duration and window, any zone whose offsets differ by at most half a day; `C07_forward_total` (no exception, fuel suffices); strictly increasing starts; calendar lemmas (one full 400-year era enumerated in the kernel + periodicity), anchor phase/template/look-back theorems. The rrule model is checked against dateutil/zoneinfo and the whole model against RecurringPattern on every run; the oracle on the implementation is the independent per-local-date series.",
          "5/C07", "dateutil.rrule and zoneinfo are external: modelled and validated differentially on every run, not verified; KF-MIXED-BYDAY (dateutil reads mixed plain/n-th BYDAY as a conjunction)"),
- "C08": ("as C07, for totality and window independence: never raises for accepted parameters, nested windows agree, reverse = reversed forward (`pager_exactly_once`), phase kept arbitrarily far from the anchor (`anchor_phase`), look-back sufficient for durations longer than the period.",
+ "C08": ("`C08_fetch_window_independent` (the answer to a window is the restriction of the answer to any wider window — a corollary of `C07_forward_exact`), `C08_forward_no_raise`, `C08_safe_anchor_total`, `C08_forward_fuel_enough`, reverse = reversed forward (`pager_exactly_once`), phase kept arbitrarily far from the anchor (`anchor_phase`), look-back sufficient for durations longer than the period; model tied to RecurringPattern on every run.",
          "5/C08", "as C07"),
- "C09": ("`C09_observational`: for EVERY history of bounded queries and clock advances (any ttl>0, any clock granularity incl. equal consecutive readings) over any keyed source with unique keys, the next query returns exactly the source's clipped slice, each event whole and once, in order; `sink_inv_reachable` (the stitched/fractured sink is determined by the live segments). Model tied to cache.py by histories run with a fake clock; trace oracle on the implementation.",
+ "C09": ("`C09_mask_observational` (mask sources: for EVERY history incl. source mutations and ANY source events the covered time inside the window is identical, fragments positive, ordered) and `C09_observational`: for EVERY history of bounded queries and clock advances (any ttl>0, any clock granularity incl. equal consecutive readings) over any keyed source with unique keys, the next query returns exactly the source's clipped slice, each event whole and once, in order; `sink_inv_reachable` (the stitched/fractured sink is determined by the live segments). Model tied to cache.py by histories run with a fake clock; trace oracle on the implementation.",
          "5/C09", "Coq kernel + model + correspondence; integer fake clock (float rounding of created+ttl not modelled); order among equal-span fragments compared as multisets (Python set iteration order)"),
- "C10": ("`heap_inv_reachable`, `fresh_covers_only` (a segment survives eviction iff fetched less than ttl ago), `economy` (source fetches = exactly the maximal parts of the window not covered by fresh segments), `no_refetch_while_fresh`, for every reachable state incl. source mutations; trace oracle on the implementation's fetch log with clock readings and version numbers.",
+ "C10": ("`C10_staleness_versions` / `C10_change_visible` (for EVERY history with source mutations: an event still showing the fields from before a mutation is only ever served while that mutation is less than ttl old, across stitches and partial expiry — Proofs/CacheStale.v), `heap_inv_reachable`, `fresh_covers_only` (a segment survives eviction iff fetched less than ttl ago), `economy` (source fetches = exactly the maximal parts of the window not covered by fresh segments), `no_refetch_while_fresh`, for every reachable state incl. source mutations; trace oracle on the implementation's fetch log with clock readings and version numbers.",
          "5/C10", "as C09"),
  "C11": ("(1) `lock_discipline facts = true` re-proved on every run against Gen/LockFacts.v regenerated from the AST of cache.py (every shared-field access inside `with self._lock`, no yield while holding it, no nested acquisition, lazily evaluated helpers materialised inside); (2) generic theorems for all thread counts, programs and schedules: mutual exclusion, serializability in lock-acquisition order, no deadlock, and with C09: every thread's result is the source's slice and the cache is correct afterwards; (3) real threads under a deterministic scheduler: every placement of 0/1 preemptions at statement granularity, judged against the Coq model's serial run.",
          "5/C11", "threading.Lock semantics and CPython's sub-statement preemption are runtime behaviour the model cannot exhibit (named in assumptions); AST extractor trusted, fail-closed"),
@@ -37,15 +39,15 @@ T = {
          "5/C12", "stored series are daily UTC patterns (arithmetic progressions); general rules are C07/C08"),
  "C13": ("Gallina model of metrics.py (period windows in local wall-clock time, totals over flattened coverage, counts, extrema, ratio as exact rational, group_by) tied to the code on every run; independent spec `measure`; additivity and window theorems under an explicit zone hypothesis.",
          "5/C13", "zoneinfo external (tables exported per run); KF-M1/M2/M3: period windows go wrong when a period boundary falls inside a DST transition's wall-clock stretch, when a shift exceeds the stepping unit, or when the range ends on a transition; final int/int float division trusted"),
- "C14": ("operational pull-machine model of the operators (per-source pull counters mirroring generator suspension points) tied to the code by instrumented sources counting next(); theorems: composing pulls nothing, outputs depend only on the pulled prefixes, refinement to the list model, bounded termination.",
+ "C14": ("operational pull-machine model of the operators (per-source pull counters mirroring generator suspension points) tied to the code by instrumented sources counting next(); theorems: composing pulls nothing, outputs depend only on the pulled prefixes, refinement to the list model for ALL operators incl. difference (`C14_pull_eq_list_all_operators`), bounded termination, and `C14_prefix_of_bounded_partial`: the first n results of an open-ended slice equal those of every sufficiently long bounded query with EQUAL pull counters (complement-free expressions).",
          "5/C14", "generator suspension itself is runtime behaviour; infinite sources are periodic UTC patterns"),
  "C15": ("(1) `purity_discipline facts = true` re-proved on every run against Gen/PurityFacts.v regenerated from the AST of the read paths (no attribute store, container mutation or global rebinding in any fetch/sweep/__getitem__/overlapping/apply method); (2) coercion theorems: aware datetimes of any zone and ints denoting the same instant give the same slice, naive/foreign bounds are TypeErrors, other steps ValueErrors; (3) two iterators over one expression consumed under random interleavings + a third evaluation all equal the model's slice.",
          "5/C15", "int(dt.timestamp()) goes through a float (exact below 2^53 s); the cache is the stated exception to purity; AST extractor trusted, fail-closed"),
  "C16": ("overlapping(p) = members of the unbounded evaluation containing p: exact for stored timelines (no hypotheses), unions/leaf filters/buffers, differences with any subtractors however far they reach (`diff_overlapping_spec_gen`), complements over non-overlapping sources (`compl_overlapping_expected`); correspondence + Coq oracle on the property's expression class with points inside, on the edges of and outside every interval.",
          "5/C16", "complement's left edge uses the reverse sweep: nested source events are KF-D3; KF-D1/KF-D2 inherited; recurring leaves are covered through C08"),
- "C17": ("`mw_spec` (merge_within meets the declarative connected-components spec for every sorted source incl. nested and unbounded events), `mw_far_apart`, `mw_group_shape`, `mw_window_global_stored`; `buf_reach_in`, `buf_fetch_sound`, `buf_clip_exact`; correspondence + Coq oracles on buffer slices and merge_within fetches in both directions.",
+ "C17": ("`mw_spec` (merge_within meets the declarative connected-components spec for every sorted source incl. nested and unbounded events), `mw_far_apart`, `mw_group_shape`, `mw_window_global_stored`; `buf_reach_in`, `buf_fetch_sound`, `buf_clip_exact`, `C17_buffer_chain_rejects` (a negative amount is rejected at every level of nested buffers); `C17_source_merge_within_spec`: the merge_within spec proved of the Gallina translation of _MergedWithin._fetch_forward's SOURCE TEXT (tie C; likewise _Buffered.fetch); correspondence + Coq oracles on buffer slices and merge_within fetches in both directions.",
          "5/C17", "Coq kernel + model + correspondence; no known finding"),
- "C18": ("filtered timeline = exactly the source events satisfying the predicate, in order; and/or = conjunction/disjunction; duration thresholds as exact rational comparisons, unbounded = infinitely long; one_of/has_any/has_all incl. empty collections; predicate model tied to properties.py by filter trees over stored events, over intersections, and filter.apply on single events incl. zero-length and unbounded ones.",
+ "C18": ("filtered timeline = exactly the source events satisfying the predicate, in order; and/or = conjunction/disjunction; duration thresholds as exact rational comparisons, unbounded = infinitely long; one_of/has_any/has_all incl. empty collections and one-shot iterables; property-vs-property comparisons; filter | timeline rejected for every operand shape; predicate model tied to properties.py by filter trees over stored events, over intersections, and filter.apply on single events incl. zero-length and unbounded ones.",
          "5/C18", "Duration.apply divides in floating point: the model compares exact rationals (equivalent below 2^53 s); ill-typed comparisons are outside the generator"),
  "C19": ("abstract VEVENT model (`to_vevent`/`of_vevent`, `rrule_text`/`parse_rrule`) with round-trip theorems; tied to ical.py by really writing and loading .ics files and by expanding the emitted RRULE with dateutil.rrulestr on every run.",
          "5/C19", "the text layer (icalendar) and the reference parser (dateutil.rrulestr) are external; recorded known findings for residues (pre-DTSTART occurrences of loaded series, fixed-offset zones, non-UTC all-day)"),
